@@ -1453,6 +1453,8 @@ func c03exec(c *h.Ctx, cs *h.Case) {
 			// the operations of the round-4 deepening pass (c03r4.go)
 			if o, ok := st.r4op(tk); ok {
 				obs = o
+			} else if o, ok := st.r7op(tk); ok {
+				obs = o
 			}
 		}
 		cs.Impl = append(cs.Impl, obs)
@@ -1642,6 +1644,7 @@ func c03gen(c *h.Ctx, yield func(*h.Case)) {
 	// ---- the classes of the round-4 deepening pass (c03r4.go); their corpus cases come first
 	c03genR4(g, emit)
 	c03genR5(g, emit)
+	c03genR7(g, emit)
 
 	// ---- raw framing: random frame lists, random chunkings, cut or over-limit tails
 	for i := 0; i < c.Pick(1100, 30000); i++ {
